@@ -655,13 +655,14 @@ PRINTABLE = "".join(chr(c) for c in range(32, 127))
 
 def valid_tag(t):
     # OpenType: printable ASCII; spaces only trailing; not all spaces
-    s = t.rstrip(" ")
-    return len(s) >= 1 and " " not in s
+    # (the property quantifies over all 4-character printable-ASCII tags: leading and interior
+    # spaces are part of the domain although OpenType itself only pads at the end)
+    return True
 
 
 class Tags(Unit):
     name = "tags"
-    rule = "table tags: quick = all 4-tuples over 13 class representatives ' !-/059AZ_az~' (28561); thorough = all 95^4 printable-ASCII 4-tuples; tags that are valid per OpenType (spaces only trailing, not empty): identifierToTag(tagToIdentifier(t))==t, xmlToTag(tagToXML(t))==t, identifiers are [A-Za-z0-9_]+ not starting with a digit, both manglings injective (checked by inverse), identifier unique on caseless file systems; distinct = each tag"
+    rule = "table tags: quick = all 4-tuples over 13 class representatives ' !-/059AZ_az~' (28561); thorough = all 95^4 printable-ASCII 4-tuples; every tag, leading and interior spaces and the all-space tag included: identifierToTag(tagToIdentifier(t))==t, xmlToTag(tagToXML(t))==t, identifiers are [A-Za-z0-9_]+ not starting with a digit, both manglings injective (checked by inverse), identifier unique on caseless file systems; distinct = each tag"
     chunk = 1
     required_witnesses = ("plain xml name", "mangled xml name", "hex escape", "trailing space")
 
